@@ -245,7 +245,7 @@ def run_case(ctx, name, params):
         if r.random() < 0.5:
             # objectives on very different scales (exact: powers of two): the distances are ratios, a range of 1e-300 or of
             # 1e+270 normalises like any other, and only a range of exactly zero contributes nothing
-            ks = [r.choice([0, -60, -200, -1000, 60, 500, 900, r.randint(-1000, 900)]) for _ in range(m)]
+            ks = [r.choice([0, -60, -200, -1000, -1040, -1060, 60, 500, 900, r.randint(-1060, 900)]) for _ in range(m)]   # down into the subnormals
             costs = [[c[d] * 2.0 ** ks[d] for d in range(m)] + [c[-1]] for c in costs]
             ctx.count("crowding_fronts_with_rescaled_objectives")
         front = [_ind([float(i)], c) for i, c in enumerate(costs)]
